@@ -18,8 +18,10 @@
       ([patch_fix_v1]) 3f1c7d2;
     - [af]: CalcPodGroupAnnotations before ([annot_fix_v0]) and since
       ([annot_fix_v1]) 8227120.
-    Statements (2) and (4) hold for EVERY version [sg] of ignoreFields, EVERY
-    equality test [eq] and both [pf]. The theorems named [_before_repair] keep the
+    Statements (2), (4) and (4a) hold for EVERY version [sg] of ignoreFields, EVERY
+    equality test [eq] and both [pf]. [pg_equal_swapped] (podGroupsEqual with the map
+    arguments exchanged) is not a version of the code; it only appears in
+    C18_swapped_comparison_writes_forever / C18_owner_key_removed. The theorems named [_before_repair] keep the
     history of the three findings machine-checked. *)
 From Coq Require Import List String ZArith.
 From KaiV Require Import Model.Grouper Model.GrouperSpec Proofs.Grouper.
@@ -137,6 +139,68 @@ Theorem C18_idempotent_interleaved :
 Proof. exact idempotent_interleaved. Qed.
 Print Assumptions C18_idempotent_interleaved.
 
+(** (3a') Idempotence in the presence of keys of other actors on the stored PodGroup. (3) has no hypothesis on
+    the state, so it covers a PodGroup that another actor has labelled or annotated: explicitly, after ANY
+    foreign update [f] of ANY PodGroup, a reconcile that follows a reconcile of the same pod writes nothing. *)
+Theorem C18_idempotent_after_foreign_update :
+  forall cfg cl p s n f,
+    snd (reconcile cfg cl p (fst (reconcile cfg cl p (fst (step cfg cl (EvForeign n f) s))))) = 0%Z.
+Proof. intros cfg cl p s n f. apply C18_idempotent. Qed.
+Print Assumptions C18_idempotent_after_foreign_update.
+
+(** (3b') A foreign update that touches only label / annotation keys the pod's metadata does not carry
+    ([foreign_to]: no queue / mark / backoff / node-pool / queue-label part; no touched label key is the queue
+    or node-pool key or a key of the computed labels; no touched annotation key is a computed one) does not
+    change what the next reconcile of the pod writes: podGroupsEqual asks whether every key the grouper
+    computes is on the stored PodGroup ([mapsEqualBySourceKeys(new, old)]), not the converse. *)
+Theorem C18_foreign_keys_do_not_wake :
+  forall cfg cl p s n f,
+    (forall m, full_md cfg cl p (get_asg (p_name p) s) = Some m -> foreign_to cfg m f) ->
+    snd (reconcile cfg cl p (fst (step cfg cl (EvForeign n f) s))) = snd (reconcile cfg cl p s).
+Proof. exact (foreign_keys_do_not_wake annot_fix patch_fix). Qed.
+Print Assumptions C18_foreign_keys_do_not_wake.
+
+(** (3c') ... hence, in a coherent set, once a pod was reconciled every later reconcile of it is silent, whatever
+    reconciles of pods of the set and whatever such foreign updates ([quiet_event]) happened since - the
+    first reconcile after the scheduler stamped the PodGroup included. This is what the monitor demands of the
+    real reconciler. *)
+Theorem C18_idempotent_with_foreign_keys :
+  forall cfg cl ps evs p s,
+    coherent cfg cl ps -> In p ps -> Forall (quiet_event cfg cl ps p) evs ->
+    snd (reconcile cfg cl p (run cfg cl evs (fst (reconcile cfg cl p s)))) = 0%Z.
+Proof. exact idempotent_with_foreign_keys. Qed.
+Print Assumptions C18_idempotent_with_foreign_keys.
+
+(** What the direction of the comparison is for. [pg_equal_swapped] is NOT the code: it is podGroupsEqual with
+    the map arguments the other way round, [mapsEqualBySourceKeys(old, new)]. With the scheduler's two timestamp
+    annotations and an admin label on the stored PodGroup ([ex_annotated]): the code as it is stays silent; the
+    swapped comparison makes every reconcile of every member pod issue an Update that leaves the store as it
+    is, for ever; without a foreign key it is silent too (so creating workloads and re-reconciling untouched
+    PodGroups does not tell the two apart). *)
+Theorem C18_swapped_comparison_writes_forever :
+  snd (reconcile ex_cfg [ex_sts] (ex_pod "0") ex_annotated) = 0%Z
+  /\ snd (reconcile ex_cfg [ex_sts] (ex_pod "1") (fst (reconcile ex_cfg [ex_sts] (ex_pod "1") ex_annotated))) = 0%Z
+  /\ (forall n, let s := Nat.iter n (fun s => fst (rec_swapped ex_cfg [ex_sts] (ex_pod "0") s)) ex_annotated in
+                snd (rec_swapped ex_cfg [ex_sts] (ex_pod "0") s) = 1%Z /\ st_pgs s = st_pgs ex_annotated)
+  /\ snd (rec_swapped ex_cfg [ex_sts] (ex_pod "1") (fst (rec_swapped ex_cfg [ex_sts] (ex_pod "1") ex_annotated))) = 1%Z
+  /\ snd (rec_swapped ex_cfg [ex_sts] (ex_pod "0") (after 1 ex_cfg [ex_sts] (ex_pod "0"))) = 0%Z.
+Proof. exact swapped_comparison_writes_forever. Qed.
+Print Assumptions C18_swapped_comparison_writes_forever.
+
+(** A key that was on the owner when the PodGroup was created (label app, annotation note) and is removed from
+    the owner afterwards stays on the stored PodGroup; the grouper no longer computes it: the code as it is
+    writes nothing and keeps it, the swapped comparison writes on every reconcile. *)
+Theorem C18_owner_key_removed :
+  let s := after 1 ex_cfg [ex_sts_labelled] (ex_pod "0") in
+  (exists g, get_pg ex_pg_name s = Some g /\ mget "app" (pg_labels g) = Some "web"%string /\ mget "note" (pg_annots g) = Some "x"%string)
+  /\ snd (reconcile ex_cfg [ex_sts] (ex_pod "0") s) = 0%Z
+  /\ (exists g, get_pg ex_pg_name (fst (reconcile ex_cfg [ex_sts] (ex_pod "0") s)) = Some g
+                /\ mget "app" (pg_labels g) = Some "web"%string /\ mget "note" (pg_annots g) = Some "x"%string)
+  /\ snd (rec_swapped ex_cfg [ex_sts] (ex_pod "0") s) = 1%Z
+  /\ snd (rec_swapped ex_cfg [ex_sts] (ex_pod "0") (fst (rec_swapped ex_cfg [ex_sts] (ex_pod "0") s))) = 1%Z.
+Proof. exact owner_key_removed. Qed.
+Print Assumptions C18_owner_key_removed.
+
 (** History 1 (9775a95). The handler before it REFUTED even the weak form of (3) — pods that settle
     and carry no stale sub-group label — in every combination of the later repairs:
     createPodGroupForMetadata builds SubGroups: []SubGroup{} and ignoreFields an empty non-nil label
@@ -229,15 +293,43 @@ Print Assumptions C18_stale_subgroup_now_quiet.
 
 (** (4) Fields owned by other actors: for any sequence of reconciles (of any pods) and foreign
     updates, the queue, mark-unschedulable, scheduling-backoff and node-pool label of an existing
-    PodGroup are exactly what the foreign updates alone make of them. *)
+    PodGroup are exactly what the foreign updates alone make of them. A foreign update may also set,
+    change and delete any other label and annotation of the stored PodGroup ([f_labels], [f_annots]). *)
 Theorem C18_foreign_fields_kept :
   forall af pf sg eq cfg cl evs s n g,
     c_queue_key cfg <> c_nodepool_key cfg ->
     get_pg n s = Some g ->
     exists g', get_pg n (run_with af pf sg eq cfg cl evs s) = Some g'
-               /\ foreign_view cfg g' = foreign_only n evs (foreign_view cfg g).
+               /\ foreign_view cfg g' = foreign_only cfg n evs (foreign_view cfg g).
 Proof. exact foreign_fields_kept. Qed.
 Print Assumptions C18_foreign_fields_kept.
+
+(** (4a) ... and so are the labels and annotations of other actors: a label key [k] (other than the queue
+    and node-pool keys) / an annotation key [k] that no reconcile of the sequence computes for PodGroup [n]
+    ([not_computed]: the metadata of every reconciled pod that targets [n] has no such key) holds, after any
+    sequence of reconciles and foreign updates, the value the foreign updates alone give it
+    ([foreign_only_key]) - the scheduler's kai.scheduler/last-start-timestamp and
+    kai.scheduler/stale-podgroup-timestamp annotations, an administrator's label, a key that was removed from
+    the owner after the PodGroup was created (the start state [s] is arbitrary). For every version of
+    ignoreFields and every equality test: the merge in updatePodGroup is what keeps them. *)
+Theorem C18_foreign_labels_kept :
+  forall af pf sg eq cfg cl evs s n g k,
+    k <> c_queue_key cfg -> k <> c_nodepool_key cfg ->
+    not_computed af cfg cl n evs m_labels k ->
+    get_pg n s = Some g ->
+    exists g', get_pg n (run_with af pf sg eq cfg cl evs s) = Some g'
+               /\ mget k (pg_labels g') = foreign_only_key f_labels n k evs (mget k (pg_labels g)).
+Proof. exact foreign_labels_kept. Qed.
+Print Assumptions C18_foreign_labels_kept.
+
+Theorem C18_foreign_annotations_kept :
+  forall af pf sg eq cfg cl evs s n g k,
+    not_computed af cfg cl n evs m_annots k ->
+    get_pg n s = Some g ->
+    exists g', get_pg n (run_with af pf sg eq cfg cl evs s) = Some g'
+               /\ mget k (pg_annots g') = foreign_only_key f_annots n k evs (mget k (pg_annots g)).
+Proof. exact foreign_annots_kept. Qed.
+Print Assumptions C18_foreign_annotations_kept.
 
 (** (4') A queue label that is present survives a reconcile; PodGroups of other names are not touched. *)
 Theorem C18_queue_label_kept :
@@ -269,3 +361,22 @@ Theorem C18_nonvacuous :
                   /\ List.length (st_pgs s) = 1%nat.
 Proof. exact ex_nonvacuous. Qed.
 Print Assumptions C18_nonvacuous.
+
+(** Non-vacuity of (3b'), (3c') and (4a): the two StatefulSet pods, the PodGroup stamped by the scheduler
+    (last-start and stale timestamps, an admin label), a sibling reconciled in between, the stale mark removed
+    again: every event is a [quiet_event], the keys are [not_computed]; the next reconcile of pod 0 writes
+    nothing and the PodGroup holds exactly what the scheduler's updates alone give. *)
+Theorem C18_foreign_keys_nonvacuous :
+  Forall (quiet_event ex_cfg [ex_sts] [ex_pod "0"; ex_pod "1"] (ex_pod "0")) ex_quiet_events
+  /\ not_computed annot_fix ex_cfg [ex_sts] ex_pg_name ex_quiet_events m_annots last_start_key
+  /\ not_computed annot_fix ex_cfg [ex_sts] ex_pg_name ex_quiet_events m_labels "team-owner"
+  /\ "team-owner"%string <> c_queue_key ex_cfg /\ "team-owner"%string <> c_nodepool_key ex_cfg
+  /\ let s := run ex_cfg [ex_sts] ex_quiet_events (after 1 ex_cfg [ex_sts] (ex_pod "0")) in
+     snd (reconcile ex_cfg [ex_sts] (ex_pod "0") s) = 0%Z
+     /\ exists g, get_pg ex_pg_name s = Some g
+                  /\ mget last_start_key (pg_annots g) = Some "2025-06-01T11:00:00Z"%string
+                  /\ mget stale_key (pg_annots g) = None
+                  /\ mget "team-owner" (pg_labels g) = Some "ml-infra"%string
+                  /\ foreign_only_key f_annots ex_pg_name last_start_key ex_quiet_events None = Some "2025-06-01T11:00:00Z"%string.
+Proof. exact ex_foreign_keys_nonvacuous. Qed.
+Print Assumptions C18_foreign_keys_nonvacuous.
